@@ -9,12 +9,18 @@ namespace
 {
 struct LegacyReceiver : Receiver
 {
-    vpbt::Exact buf;
+    std::unique_ptr<vpbt::Exact> buf;
     gstuff_autorecv_v1 rx;
-    explicit LegacyReceiver(size_t cap) : buf(cap)
+    explicit LegacyReceiver(size_t cap) : buf(new vpbt::Exact(cap))
     {
         memset(&rx, 0, sizeof rx); // the API has no initialiser for `state`
-        gstuff_autorecv_setbuf_v1(&rx, buf.p, (int)cap);
+        gstuff_autorecv_setbuf_v1(&rx, buf->p, (int)cap);
+    }
+    void rearm(size_t cap) override
+    {
+        std::unique_ptr<vpbt::Exact> nb(new vpbt::Exact(cap));
+        gstuff_autorecv_setbuf_v1(&rx, nb->p, (int)cap);
+        buf = std::move(nb);
     }
     Status feed(uint8_t c) override
     {
